@@ -137,14 +137,32 @@ func (f *Field) Copy() *Field {
 		deferField = &cp
 	}
 	return &Field{
-		Name:        f.Name,
-		Value:       f.Value.Copy(),
-		Position:    f.Position,
-		Defer:       deferField,
-		Stream:      f.Stream,
-		OnTypeNames: f.OnTypeNames,
-		Info:        f.Info,
+		Name:              f.Name,
+		Value:             f.Value.Copy(),
+		Position:          f.Position,
+		Defer:             deferField,
+		Stream:            f.Stream,
+		OnTypeNames:       f.OnTypeNames,
+		ParentOnTypeNames: f.CopyParentOnTypeNames(),
+		Info:              f.Info,
 	}
+}
+
+// CopyParentOnTypeNames returns a copy of the parent type conditions of the field.
+// A copy of a field is reachable under the same parent types as the original,
+// the layers are not shared because merging fields modifies them in place.
+func (f *Field) CopyParentOnTypeNames() []ParentOnTypeNames {
+	if f.ParentOnTypeNames == nil {
+		return nil
+	}
+	out := make([]ParentOnTypeNames, len(f.ParentOnTypeNames))
+	for i := range f.ParentOnTypeNames {
+		out[i] = ParentOnTypeNames{
+			Depth: f.ParentOnTypeNames[i].Depth,
+			Names: append([][]byte(nil), f.ParentOnTypeNames[i].Names...),
+		}
+	}
+	return out
 }
 
 func (f *Field) Equals(n *Field) bool {
